@@ -24,18 +24,33 @@ EXPLANATION = (
 )
 ASSUMPTIONS = ["sorted()/list.sort are stable and deterministic", "IntervalTree.overlap returns a set (arbitrary iteration order)"]
 
+NODE_INIT = {"node.Node.__init__"}
+STUBS = {"node.Node.createStub", "node.Node.removeStub"}
+
+
+def _in(modules=(), funcs=()):
+    """Predicate on a function: its top-level function is one of `funcs` or lives in one of `modules`
+    (module granularity, so that extracting a helper inside the module is not an alarm)."""
+    def pred(P, f):
+        t = f
+        while t.parent is not None:
+            t = t.parent
+        return t.qual in funcs or t.module.name in modules or f.qual in funcs
+    return pred
+
+
 NODE_ATTRS = {
     # attr: (allowed writers, allowed readers) among functions reachable from Force.compute
-    "idealPos": ({"node.Node.__init__"}, None),
-    "width": ({"node.Node.__init__"}, None),
-    "data": ({"node.Node.__init__"}, None),
-    "currentPos": ({"node.Node.__init__", "node.Node.createStub", qp.RO}, {qp.RO, "node.Node.createStub"}),
-    "parent": ({"node.Node.__init__", "node.Node.createStub", "node.Node.removeStub"}, {qp.RO, "node.Node.removeStub"}),
-    "child": ({"node.Node.__init__", "node.Node.createStub", "node.Node.removeStub"}, {"node.Node.isStub"}),
-    "targetPos": ({qp.RO}, {qp.RO, "removeOverlap.nodeToVariable", "removeOverlap.removeOverlap.<lambda#1>"}),
-    "overlapCount": ({"node.Node.__init__", "distributor.Distributor.countIdealOverlaps", "distributor.Distributor.algorithm_overlap"}, {"distributor.Distributor.algorithm_overlap", "distributor.Distributor.algorithm_overlap.<lambda#1>"}),
-    "overlaps": ({"distributor.Distributor.countIdealOverlaps"}, {"distributor.Distributor.algorithm_overlap"}),
-    "layerIndex": ({"node.Node.__init__", "force.Force.compute"}, set()),
+    "idealPos": (_in(funcs=NODE_INIT), None),
+    "width": (_in(funcs=NODE_INIT), None),
+    "data": (_in(funcs=NODE_INIT), None),
+    "currentPos": (_in(modules=("removeOverlap",), funcs=NODE_INIT | {"node.Node.createStub"}), _in(modules=("removeOverlap",), funcs={"node.Node.createStub"})),
+    "parent": (_in(funcs=NODE_INIT | STUBS), _in(modules=("removeOverlap",), funcs={"node.Node.removeStub"})),
+    "child": (_in(funcs=NODE_INIT | STUBS), _in(funcs={"node.Node.isStub"})),
+    "targetPos": (_in(modules=("removeOverlap",)), _in(modules=("removeOverlap",))),
+    "overlapCount": (_in(modules=("distributor",), funcs=NODE_INIT), _in(modules=("distributor",))),
+    "overlaps": (_in(modules=("distributor",)), _in(modules=("distributor",))),
+    "layerIndex": (_in(modules=("force",), funcs=NODE_INIT), _in()),
 }
 
 
@@ -67,9 +82,9 @@ def nostale(ctx, R):
                 n += 1
                 topq = _top(P, f).qual
                 if isinstance(nd.ctx, (ast.Store, ast.Del)) or isinstance(getattr(nd, "_parent", None), ast.AugAssign) and getattr(nd, "_parent").target is nd:
-                    R.check(q in writers or topq in writers, "C06.NOSTALE", "write .%s in %s" % (nd.attr, q), where(f, nd), "known writer", "`%s` writes Node.%s on the layout path: %s" % (q, nd.attr, "an input of the layout is overwritten, so a second compute() starts from different data" if nd.attr in ("idealPos", "width", "data") else "state that a later compute() or layer can read back"))
+                    R.check(writers(P, f), "C06.NOSTALE", "write .%s in %s" % (nd.attr, q), where(f, nd), "known writer", "`%s` writes Node.%s on the layout path: %s" % (q, nd.attr, "an input of the layout is overwritten, so a second compute() starts from different data" if nd.attr in ("idealPos", "width", "data") else "state that a later compute() or layer can read back"))
                 if isinstance(nd.ctx, ast.Load) and readers is not None:
-                    R.check(q in readers or topq in readers, "C06.NOSTALE", "read .%s in %s" % (nd.attr, q), where(f, nd), "read after a write in the same compute()", "`%s` reads Node.%s on the layout path: the value may be left over from an earlier layout (stale position / layer / overlap count), so the result depends on history" % (q, nd.attr))
+                    R.check(readers(P, f), "C06.NOSTALE", "read .%s in %s" % (nd.attr, q), where(f, nd), "read after a write in the same compute()", "`%s` reads Node.%s on the layout path: the value may be left over from an earlier layout (stale position / layer / overlap count), so the result depends on history" % (q, nd.attr))
     R.check(n >= 25, "C06.NOSTALE.inventory", "Node attribute accesses examined: %d" % n, "", "", "too few Node attribute accesses found on the compute call graph", nontrivial=False)
     # overlap counts are recounted in every pass before the punting loop reads them
     f = P.func("distributor.Distributor.algorithm_overlap")
